@@ -9,6 +9,13 @@ occurs in no expression), numbers, and non-model objects.  Every ordered pair is
 
 (i)  correspondence: `is_equal`, `is_almost_equal`, `==`, `!=` on the real objects vs the Lean model
      (`lean/DimodModel/Equality.lean`, driver `eqdriver`) — value or exception class;
+Canonical form (what "the same quadratic biases" means, for `is_equal` and — "behaves the same with biases
+compared after rounding" — for `is_almost_equal` alike): the set of variables with their types, the offset, one linear
+bias per variable, and the *set of interactions* with one bias per interaction.  An interaction stored with an
+explicit zero bias (`add_quadratic(u, v, 0)`, two cancelling additions) IS part of the canonical form, exactly as a
+variable with linear bias 0 is: `is_equal` compares the `adj` mappings (keys and values), so two models with the
+same number of interactions but different interaction sets are different, whatever the biases, in both orders.
+
 (ii) property predicate: the answer must be a bool (no exception) and equal to the comparison of
      canonical forms computed here from the *descriptors* the objects were built from (labels, types,
      offset, linear, quadratic [, constraint labels / senses / rhs]) — order- and dtype-independent;
@@ -34,7 +41,7 @@ KINDS = ['bqm', 'qm', 'objview', 'conview']
 # ------------------------------------------------------------------------------------------------ descriptors
 
 def rand_spec(r):
-    n = r.choice([0, 0, 1, 2, 2, 3, 3, 4])
+    n = r.choice([0, 0, 1, 2, 2, 3, 3, 3, 4, 4])
     labs = r.sample(LABELS, n)
     mode = r.random()
     if mode < .45:
@@ -42,13 +49,14 @@ def rand_spec(r):
         vts = [vt] * n
     else:
         vts = [r.choice(['BINARY', 'SPIN', 'INTEGER']) for _ in labs]
-    lin = {v: F(r.randint(-8, 8), 4) for v in labs}
+    # explicit zero biases are first-class structure: a variable with linear bias 0, an interaction with bias 0
+    lin = {v: (F(0) if r.random() < .25 else F(r.randint(-8, 8), 4)) for v in labs}
     quad = {}
     for _ in range(r.randint(0, 4) if n else 0):
         i, j = r.randrange(n), r.randrange(n)
         if i == j and vts[i] != 'INTEGER':
             continue
-        quad[frozenset((labs[i], labs[j]))] = F(r.randint(-8, 8), 4)
+        quad[frozenset((labs[i], labs[j]))] = F(0) if r.random() < .25 else F(r.randint(-8, 8), 4)
     return dict(vars=list(zip(labs, vts)), lin=lin, quad=quad, off=F(r.randint(-4, 4), 2))
 
 
@@ -72,6 +80,20 @@ def perturbations(r, s, tiny=False):
             t = cp(s); del t['quad'][k]; out.append(('interaction dropped', t))
     if tiny:
         return out
+    vts_ = dict(s['vars'])
+    allpairs = [frozenset((u, v)) for i, u in enumerate(labs) for v in labs[i:] if u != v or vts_[u] == 'INTEGER']
+    free = [k for k in allpairs if k not in s['quad']]
+    if s['quad'] and free:
+        # same variables, same NUMBER of interactions, different interaction SETS
+        k = r.choice(list(s['quad'])); k2 = r.choice(free)
+        t = cp(s); b = t['quad'].pop(k); t['quad'][k2] = b; out.append(('interaction moved to another pair', t))
+        # ... where the moved interaction carries an explicit zero bias on both sides
+        z = cp(s); z['quad'][k] = F(0); out.append(('quadratic bias set to zero', z))
+        t = cp(z); del t['quad'][k]; t['quad'][k2] = F(0); out.append(('zero interaction moved to another pair', t))
+        t = cp(z); del t['quad'][k]; t['quad'][k2] = F(r.choice([1, -3]), 4); out.append(('zero interaction replaced by another pair', t))
+    if labs:
+        v = r.choice(labs)
+        t = cp(s); t['lin'][v] = F(0) if s['lin'][v] != 0 else F(1, 4); out.append(('linear bias to/from zero', t))
     if len(labs) >= 2:
         free = [frozenset((u, v)) for u in labs for v in labs if u != v and frozenset((u, v)) not in s['quad']]
         if free:
@@ -345,8 +367,12 @@ def one_round(ctx, r, lines, expect, meta):
         add(kind, base, 'same')
     add(r.choice(KINDS), base, 'same')
     perts = perturbations(r, base)
-    for name, t in r.sample(perts, k=min(4, len(perts))) + [p for p in perts if p[0].startswith('isolated')]:
+    must = [p for p in perts if p[0].startswith('isolated') or 'moved' in p[0] or 'zero' in p[0]]
+    for name, t in r.sample(perts, k=min(4, len(perts))) + must:
         add(r.choice(KINDS), t, name)
+    for name, t in must:
+        if 'moved' in name or name == 'quadratic bias set to zero':
+            add(r.choice(KINDS), t, name)      # a second realisation in another class
     for name, t in perturbations(r, base, tiny=True)[:2]:
         add(r.choice(['qm', 'objview', 'conview', 'bqm']), t, 'tiny ' + name, f32ok=False)
     pool.append((Obj('num', base['off'], float(base['off']), None), 'number'))
@@ -402,7 +428,10 @@ def one_round(ctx, r, lines, expect, meta):
                     continue
                 if (got == 'T') != want:
                     icls = f'{b.cls} argument'
-                    if op == 'aeq' and a.kind == 'bqm' and b.kind in ('objview', 'conview') and want:
+                    if (op in ('eq', 'aeq') and got == 'T' and a.kind != 'cqm' and b.kind not in ('cqm', 'num', 'other')
+                            and frozenset(a.spec['vars']) == frozenset(b.spec['vars']) and set(a.spec['quad']) != set(b.spec['quad'])):
+                        icls = 'same variables, different interaction sets'
+                    elif op == 'aeq' and a.kind == 'bqm' and b.kind in ('objview', 'conview') and want:
                         icls = 'other is an expression view'
                     elif op == 'aeq' and a.kind == 'bqm' and b.kind == 'bqm' and want and not a.spec['vars']:
                         icls = 'variable-free BQMs of different vartype'
